@@ -118,6 +118,15 @@ def alias_involved(scope, ent):
     return prog_key in _ALIASED.get("set", set())
 
 
+def chain_root(o):
+    """The first object of the % chain the occurrence o belongs to."""
+    k = o.tok_i
+    toks = o.stmt.toks
+    while k >= 2 and toks[k - 1] == "%":
+        k -= 2
+    return toks[k]
+
+
 def alias_visible_from(scope, ent):
     """Is `ent` accessible from `scope` (or one of its hosts, shadowing ignored) under a name that is not its own?"""
     s = scope
@@ -206,11 +215,6 @@ def check_program(ctx, prog, layout, picks, scratch):
                 # Only that: the missing label must be the entity's own name and an alias of it must be visible from this scope
                 if o.scope is not None and any(alias_involved(o.scope, x) and x.name.lower() == n and alias_visible_from(o.scope, x) for x in cands):
                     label = "completion:missing:entity-is-also-use-associated-under-an-alias"
-                if context in ("member", "call-member"):
-                    b = o.stmt.toks[o.tok_i - 2]
-                    bt = b.ent.typ[1] if isinstance(b.ent.typ, tuple) else None
-                    if bt is not None and o.scope is not None and alias_involved(o.scope, bt):
-                        label = "completion:missing:entity-is-also-use-associated-under-an-alias"
                 if context == "use-only":
                     mod = [t for t in o.stmt.toks if isinstance(t, fmodel.Ref) and t.role == "usemod"][0].ent
                     ex_ = mod.inner.exported()
@@ -220,6 +224,10 @@ def check_program(ctx, prog, layout, picks, scratch):
                     b = o.stmt.toks[o.tok_i - 2]
                     if o.scope is not None and any(fws.leak_through_private_module(o.scope, x) for x in universe.get(b.spelling().lower(), []) if x is not b.ent):
                         label = "completion:extra:leaked-through-a-default-PRIVATE-module"
+                    elif o.scope is not None and any(fws.hidden_by_rename_list(o.scope, rt.spelling(), x) for rt in [chain_root(o)]
+                                                       for x in universe.get(rt.spelling().lower(), []) if x is not rt.ent):
+                        # the base object's name is looked up first: fortls finds the entity a rename list hides under that name
+                        label = "completion:member:base-object-resolved-to-a-name-hidden-by-a-rename-list"
                 if label not in seen:
                     seen.add(label)
                     discs.append(Disc(label, f"{context} completion for {prefix!r} at {o.file}:{o.line}:{o.col + cut} ({r.lines[o.file][o.line].strip()[:60]!r}): "
